@@ -244,6 +244,25 @@ class Prop(SeqProp):
                 return f"op {i} `{op[:120]}`: {line[:200]!r}, reference gives {exp[:200]!r}"
         return None
 
+    # the first calls a process makes to the numeral functions come from several threads at once (harness/threads.py), then
+    # the whole domain is swept: a memo table filled on demand must not get out of step
+    def extra_scenarios(self, rng, tier):
+        return [{"kind": "cold-threads-roman"}] * (1 if tier == "quick" else 4)
+
+    def run_extra(self, desc):
+        import subprocess
+        import sys
+        from .. import core
+        try:
+            p = subprocess.run([sys.executable, "-m", "harness.threads", "roman"], cwd=core.VERIF, stdout=subprocess.PIPE,
+                               stderr=subprocess.STDOUT, text=True, timeout=120, start_new_session=True)
+        except subprocess.TimeoutExpired:
+            return "int_2_roman / roman_2_int called from several threads did not finish within 120 s"
+        if p.returncode == 0 and "DONE" in p.stdout:
+            return None
+        wrong = [l for l in p.stdout.split("\n") if l.startswith("WRONG")]
+        return (wrong[0][6:] if wrong else "the threaded run failed: " + p.stdout[-300:])
+
     def key(self, case, impl_out):
         return hash(tuple(case.ops))
 
